@@ -279,7 +279,13 @@ def check_config(case, ctx):
             "precision.storage_kind." + tag,
             lambda: type(p).__name__,
         )
-        pd = _dense(p)
+        try:
+            pd = _dense(p)
+        except ValueError as e:
+            # scipy refuses to expand a block-sparse matrix whose index arrays are inconsistent
+            ctx.fail("precision.sparse_structure_invalid." + where, "edges=%r: %s" % (edges, e))
+            mats[s] = np.zeros((0, 0))
+            continue
         mats[s] = pd
         if not ctx.expect(pd.shape == (d, d), "precision.shape." + tag, lambda: repr(pd.shape)):
             continue
